@@ -49,6 +49,8 @@ type caseJS struct {
 	ID    int64   `json:"id,omitempty"`
 	Data  []byte  `json:"data,omitempty"`
 	Gen   string  `json:"gen,omitempty"` // how to regenerate a payload too large to store
+	Kind  string   `json:"kind,omitempty"` // reuse stream: which decoder
+	Seq   [][]byte `json:"seq,omitempty"`  // reuse stream: inputs decoded one after another into the same value
 	Why   string  `json:"why,omitempty"`
 }
 
@@ -466,6 +468,183 @@ func fillMember(n int, fill byte) []byte {
 	return b.Buf
 }
 
+
+// ---------- reused (dirty) decode targets ----------
+
+// robs is what one Decode call left in its target.
+type robs struct {
+	Status int
+	ID     int64
+	Data   []byte
+	Msgs   []msgJS
+	Rest   int
+}
+
+func (a robs) equal(b robs) bool {
+	if a.Status != b.Status {
+		return false
+	}
+	if a.Status != 0 {
+		return true // after an error only the error class is compared
+	}
+	if a.ID != b.ID || a.Rest != b.Rest || !bytes.Equal(a.Data, b.Data) || len(a.Msgs) != len(b.Msgs) {
+		return false
+	}
+	for i := range a.Msgs {
+		x, y := a.Msgs[i], b.Msgs[i]
+		if x.ID != y.ID || x.SeqNo != y.SeqNo || x.Bytes != y.Bytes || !bytes.Equal(x.Body, y.Body) {
+			return false
+		}
+	}
+	return true
+}
+
+// reuseTarget wraps one decoder type: dec decodes into the long-lived value when dirty is
+// true and into a brand-new value otherwise; old reports the long-lived value's content.
+type reuseTarget struct {
+	dec func(in []byte, dirty bool) robs
+	old func() ([]byte, []msgJS)
+}
+
+func decodeInto(d bin.Decoder, in []byte, read func() robs) robs {
+	b := &bin.Buffer{Buf: append([]byte{}, in...)}
+	var err error
+	p, _ := hx.Recover(func() { err = d.Decode(b) })
+	if p {
+		return robs{Status: 9}
+	}
+	if st := errCode(err); st != 0 {
+		return robs{Status: st}
+	}
+	o := read()
+	o.Rest = len(b.Buf)
+	o.Data = append([]byte{}, o.Data...)
+	return o
+}
+
+func newReuseTarget(kind string) reuseTarget {
+	switch kind {
+	case "unencrypted":
+		long := &proto.UnencryptedMessage{}
+		return reuseTarget{func(in []byte, dirty bool) robs {
+			u := &proto.UnencryptedMessage{}
+			if dirty {
+				u = long
+			}
+			return decodeInto(u, in, func() robs { return robs{ID: u.MessageID, Data: u.MessageData} })
+		}, func() ([]byte, []msgJS) { return append([]byte{}, long.MessageData...), nil }}
+	case "result":
+		long := &proto.Result{}
+		return reuseTarget{func(in []byte, dirty bool) robs {
+			u := &proto.Result{}
+			if dirty {
+				u = long
+			}
+			return decodeInto(u, in, func() robs { return robs{ID: u.RequestMessageID, Data: u.Result} })
+		}, func() ([]byte, []msgJS) { return append([]byte{}, long.Result...), nil }}
+	case "gzip":
+		long := &proto.GZIP{}
+		return reuseTarget{func(in []byte, dirty bool) robs {
+			u := &proto.GZIP{}
+			if dirty {
+				u = long
+			}
+			return decodeInto(u, in, func() robs { return robs{Data: u.Data} })
+		}, func() ([]byte, []msgJS) { return append([]byte{}, long.Data...), nil }}
+	case "message":
+		long := &proto.Message{}
+		return reuseTarget{func(in []byte, dirty bool) robs {
+			u := &proto.Message{}
+			if dirty {
+				u = long
+			}
+			return decodeInto(u, in, func() robs {
+				return robs{Msgs: []msgJS{{u.ID, u.SeqNo, u.Bytes, append([]byte{}, u.Body...)}}}
+			})
+		}, func() ([]byte, []msgJS) { return nil, []msgJS{{long.ID, long.SeqNo, long.Bytes, append([]byte{}, long.Body...)}} }}
+	default: // container
+		long := &proto.MessageContainer{}
+		cp := func(c *proto.MessageContainer) []msgJS {
+			r := toMsgs(c.Messages)
+			for i := range r {
+				r[i].Body = append([]byte{}, r[i].Body...)
+			}
+			return r
+		}
+		return reuseTarget{func(in []byte, dirty bool) robs {
+			u := &proto.MessageContainer{}
+			if dirty {
+				u = long
+			}
+			return decodeInto(u, in, func() robs { return robs{Msgs: cp(u)} })
+		}, func() ([]byte, []msgJS) { return nil, cp(long) }}
+	}
+}
+
+// reuseSeq decodes the inputs one after another into ONE long-lived value and, each of
+// them, into a fresh value; both must report the same thing. Returns false after the first
+// violation (the rest of the sequence would only repeat it).
+func reuseSeq(kind string, seq [][]byte, emit bool) {
+	t := newReuseTarget(kind)
+	for i, in := range seq {
+		c.Obs.Evaluations++
+		oldData, oldMsgs := t.old()
+		fresh := t.dec(in, false)
+		dirty := t.dec(in, true)
+		js := caseJS{Mode: 8, Kind: kind, Seq: seq[:i+1], Why: "reuse"}
+		c.Count(fmt.Sprintf("reuse:%s:status=%d", kind, dirty.Status))
+		sh, ix := -1, 0
+		if emit {
+			switch kind {
+			case "unencrypted":
+				sh, ix = c.Case(hx.Tuple("8", hx.Bytes(in), hx.Z(int64(dirty.Status)), hx.ZList([]int64{dirty.ID, int64(dirty.Rest)}), hx.Bytes(dirty.Data),
+					hx.List([]string{hx.Tuple("0", "0", "0", hx.Bytes(oldData))})), js)
+			case "result":
+				sh, ix = c.Case(hx.Tuple("9", hx.Bytes(in), hx.Z(int64(dirty.Status)), hx.ZList([]int64{dirty.ID}), hx.Bytes(dirty.Data),
+					hx.List([]string{hx.Tuple("0", "0", "0", hx.Bytes(oldData))})), js)
+			case "container":
+				sh, ix = c.Case(hx.Tuple("10", hx.Bytes(in), hx.Z(int64(dirty.Status)), hx.IntList([]int{dirty.Rest, len(oldMsgs)}), "[]",
+					coqMsgs(append(append([]msgJS{}, oldMsgs...), dirty.Msgs...))), js)
+			}
+		}
+		if i > 0 && dirty.Status == 0 {
+			c.Nontrivial(fmt.Sprintf("ru%s%x", kind, in[:min(len(in), 100)]) + fmt.Sprint(len(in), len(oldData), len(oldMsgs)))
+		}
+		if dirty.Status == 9 {
+			c.Violate(kind+"-reuse-panic", fmt.Sprintf("%s.Decode into a previously used value panicked (step %d of the sequence)", kind, i+1), sh, ix, js)
+			return
+		}
+		if !dirty.equal(fresh) {
+			c.Violate(kind+"-reused-target-differs", fmt.Sprintf("%s.Decode into a previously used value (step %d; it held %d bytes / %d messages) reports status=%d id=%d data=%d bytes messages=%d rest=%d, a fresh value reports status=%d id=%d data=%d bytes messages=%d rest=%d",
+				kind, i+1, len(oldData), len(oldMsgs), dirty.Status, dirty.ID, len(dirty.Data), len(dirty.Msgs), dirty.Rest, fresh.Status, fresh.ID, len(fresh.Data), len(fresh.Msgs), fresh.Rest), sh, ix, js)
+			return
+		}
+	}
+}
+
+// encodedFor builds one valid input for the reuse stream with a payload of n bytes.
+func encodedFor(r *hx.Rand, kind string, n int) []byte {
+	var b bin.Buffer
+	switch kind {
+	case "unencrypted":
+		_ = proto.UnencryptedMessage{MessageID: int64(r.U64()), MessageData: r.Bytes(n)}.Encode(&b)
+	case "result":
+		_ = (&proto.Result{RequestMessageID: int64(r.U64()), Result: r.Bytes(n)}).Encode(&b)
+	case "gzip":
+		_ = proto.GZIP{Data: r.Bytes(n)}.Encode(&b)
+	case "message":
+		_ = (&proto.Message{ID: int64(r.U64()), SeqNo: r.Intn(100), Bytes: n, Body: r.Bytes(n)}).Encode(&b)
+	default:
+		mc := proto.MessageContainer{}
+		for k := r.Intn(4); k > 0; k-- {
+			l := r.Intn(n + 1)
+			mc.Messages = append(mc.Messages, proto.Message{ID: int64(r.U64()), SeqNo: r.Intn(100), Bytes: l, Body: r.Bytes(l)})
+		}
+		_ = mc.Encode(&b)
+	}
+	return b.Buf
+}
+
 func randMsg(r *hx.Rand, maxBody int) msgJS {
 	n := r.Intn(maxBody + 1)
 	if r.Chance(1, 4) {
@@ -528,6 +707,9 @@ func main() {
 			} else {
 				fmt.Println("replay: large gzip payload, regenerate with:", rp.Gen)
 			}
+		case 8:
+			reuseSeq(rp.Kind, rp.Seq, true)
+			fmt.Printf("replay: %d inputs decoded one after another into one %s value and into fresh values\n", len(rp.Seq), rp.Kind)
 		case 7:
 			if rp.Data != nil {
 				gzipEncode("replay", rp.Data, "")
@@ -693,6 +875,29 @@ func main() {
 		gzipDecode("valid", append(append([]byte{}, enc...), trail...), d, len(d), "")
 		gzipDecode("mutated", mutate(r, enc), nil, -1, "")
 	}
+	// ----- reused (dirty) decode targets: long-then-short, after errors, after mutants -----
+	for _, kind := range []string{"unencrypted", "result", "gzip", "message", "container"} {
+		reuseSeq(kind, [][]byte{encodedFor(r, kind, 40), encodedFor(r, kind, 12), encodedFor(r, kind, 0), encodedFor(r, kind, 64), encodedFor(r, kind, 20)}, true)
+		for i := 0; i < c.N(12, 400); i++ {
+			var seq [][]byte
+			for k := r.Range(2, 6); k > 0; k-- {
+				n := r.Intn(80)
+				if r.Chance(1, 4) {
+					n = 0
+				}
+				in := encodedFor(r, kind, n)
+				switch r.Intn(6) {
+				case 0:
+					in = mutate(r, in)
+				case 1:
+					in = append(in, r.Bytes(r.Intn(6))...)
+				}
+				seq = append(seq, in)
+			}
+			reuseSeq(kind, seq, i%2 == 0)
+		}
+	}
+
 	// ----- arbitrary bytes for every decoder -----
 	for i := 0; i < c.N(90, 3000); i++ {
 		in := r.Bytes(r.Intn(64))
